@@ -131,6 +131,9 @@ def expected_flows(b, spec):
                 add(bus, +1, srv.GetVariableName('SUP_' + b.sectors[bus].FullCode), cur)
                 if c['second_market'].get('hh_share'):
                     add(hh, -1, vn(b, ck, 'HH', 'DEM_' + srv.Code), cur)
+            for cb in z.get('cross_buy', []):
+                if cb['buyer'] == ck:
+                    add(hh, -1, vn(b, ck, 'HH', 'DEM_' + b.sectors[(cb['market'], 'GOOD')].FullCode), cur)
             if c.get('custom'):
                 g_name = vn(b, ck, 'DONOR', 'GRANT')
                 add((ck, 'DONOR'), -1, g_name, cur)
@@ -223,6 +226,10 @@ def check_markets(J, b, spec):
                 dem.append(vn(b, gkey, grole, 'DEM_' + gcode))
             else:
                 dem.append(vn(b, gkey, grole, 'DEM_' + good.FullCode))
+            for cb in z.get('cross_buy', []):
+                if cb['market'] == ck:
+                    dem.append(vn(b, cb['buyer'], 'HH', 'DEM_' + good.FullCode))
+                    J.count('goods_market_with_buyer_from_another_region.judged')
             mdem, msup = good.GetVariableName('DEM_' + gcode), good.GetVariableName('SUP_' + gcode)
             J.equal_series('market_demand_not_sum_of_declared_demands', mdem, lambda k, mdem=mdem: J.v(mdem, k),
                            lambda k, dem=dem: sum((J.v(n, k) for n in dem), Fraction(0)), k_from=1,
